@@ -746,7 +746,29 @@ func ruleUpperBoundForm(w *World, r *Report, cl map[*ssa.Function]bool) {
 			}
 			ord[scope]++
 			n++
-			key := fmt.Sprintf("UPPER-BOUND-FORM / %s / exclusive-bound form#%d", scope, ord[scope])
+			// stable identity: kind of the scaled bound and shape of the shift expression (kinds as leaves)
+			ke := kindsFor(w)
+			kindOf := func(v ssa.Value) string {
+				if av := ke.Eval(v); av != nil && av.Scalar != 0 {
+					return av.Scalar.String()
+				}
+				return "?"
+			}
+			var shape func(v ssa.Value, d int) string
+			shape = func(v ssa.Value, d int) string {
+				v = resolve(v)
+				if k, ok := constInt(v); ok {
+					return fmt.Sprint(k)
+				}
+				if b, ok := v.(*ssa.BinOp); ok && d < 3 {
+					return "(" + shape(b.X, d+1) + b.Op.String() + shape(b.Y, d+1) + ")"
+				}
+				if u, ok := v.(*ssa.UnOp); ok && d < 3 {
+					return u.Op.String() + shape(u.X, d+1)
+				}
+				return kindOf(v)
+			}
+			key := fmt.Sprintf("UPPER-BOUND-FORM / %s / scale(%s+1, %s) - 1", scope, kindOf(a.X), shape(call.Call.Args[1], 0))
 			d := resolve(call.Call.Args[1])
 			good := false
 			if k, ok := constInt(d); ok && k >= 0 {
